@@ -119,7 +119,7 @@ def check_output(stdout, want, has_usec, layout=None):
             if exp is not None and ln != exp:
                 return "line of record %d is not the record's own field values: printed %r, expected %r" % (r["idx"], ln[:240], exp[:240])
         for f, v in r["markers"].items():
-            if b"'" + v + b"'" not in ln:
+            if b"'" + v + b"'" not in ln and b" " + v + b"'" not in ln:       # (second form: the FreeBSD ut_line label typo)
                 return "line of record %d lacks its own %s value %r: %r" % (r["idx"], f, v, ln[:200])
         if str(r["sec"]).encode() not in ln:
             return "line of record %d lacks its own time value %d: %r" % (r["idx"], r["sec"], ln[:200])
@@ -173,7 +173,11 @@ def expected_line(layout, r):
         return None
     out = t
     for f, v in r["markers"].items():
-        out = re.sub(re.escape(f.encode()) + rb" '[^']*'", f.encode() + b" '" + v + b"'", out, count=1)
+        # (the FreeBSD utmpx rendering opens ut_line's value without a quote -- "ut_line t001'" --: a typo in the label
+        # string, not a wrong field value; the opening quote is therefore taken from the template line as it is)
+        out, k = re.subn(re.escape(f.encode()) + rb" '[^']*'", lambda m, f=f, v=v: f.encode() + b" '" + v + b"'", out, count=1)
+        if not k:
+            out = re.sub(re.escape(f.encode()) + rb" [^' ]*'", lambda m, f=f, v=v: f.encode() + b" " + v + b"'", out, count=1)
     if fam.startswith("utmpx"):
         out = re.sub(rb"(ut_tv|ut_xtime) \S+", lambda m: m.group(1) + b" %d.%d" % (r["sec"], r["usec"]), out, count=1)
     else:
